@@ -105,10 +105,12 @@ Definition pack_context_bytes (syms : list N) (packed_len : nat) : list N :=
 Inductive nxd_result :=
 | DOk (bytes : list N)
 | DErr                (* any io::Error *)
-| DPanic              (* slice length mismatch / index out of bounds *)
+| DPanic              (* a panic; since the decoder repairs 497e771 (CAT payload length) and 464651e
+                         (bit-pack `get`) no path of the model produces it: nx_decode_never_panics *)
 | DUnsupported.       (* STRIPE, entropy-coded data or meta-data: not modelled *)
 
-(* unpack one byte into [m] symbols: mapping_table[s & mask]; s >>= shift.  None = index panic *)
+(* unpack one byte into [m] symbols: *mapping_table.get(s & mask)?; s >>= shift.
+   None = the value is not in the table (InvalidData) *)
 Fixpoint unpack_byte (table : list N) (w : N) (s : N) (m : nat) : option (list N) :=
   match m with
   | O => Some []
@@ -142,7 +144,7 @@ Fixpoint unpack_go (table : list N) (cs : nat) (w : N) (src : list N) (n : nat) 
 Definition pack_decode (table : list N) (src : list N) (n : nat) : nxd_result :=
   match pack_geom (length table) with
   | Some (O, _) => DOk (repeat (nth 0 table 0) n)
-  | Some (cs, w) => match unpack_go table cs w src n with Some o => DOk o | None => DPanic end
+  | Some (cs, w) => match unpack_go table cs w src n with Some o => DOk o | None => DErr end
   | None => DErr
   end.
 
@@ -343,13 +345,15 @@ Definition nx_decode (bs : list N) (usize : N) : nxd_result :=
           | Some (inr _) => DUnsupported
           | Some (inl (rctx, size2, r3)) =>
             if f_cat f then
-              (* dst.copy_from_slice(src) *)
-              if negb (N.of_nat (length r3) =? size2) then DPanic
-              else
+              (* split_off(&mut src, uncompressed_size)?.to_vec(): UnexpectedEof when the payload
+                 is shorter than declared; bytes after it are ignored *)
+              match split_off r3 (N.to_nat size2) with
+              | None => DErr
+              | Some (payload, _) =>
                 let after_rle :=
                   match rctx with
-                  | Some meta => rle_decode r3 meta (N.to_nat size1)
-                  | None => DOk r3
+                  | Some meta => rle_decode payload meta (N.to_nat size1)
+                  | None => DOk payload
                   end in
                 match after_rle with
                 | DOk d =>
@@ -359,6 +363,7 @@ Definition nx_decode (bs : list N) (usize : N) : nxd_result :=
                   end
                 | e => e
                 end
+              end
             else DUnsupported
           end
         end
